@@ -2,7 +2,13 @@
 From Coq Require Import List Arith.
 From PG Require Import Base.ListSet Graph.MGraph Graph.MSep Graph.Walks C01.Model C12.Model C12.Enum C12.Spec C11.Model C11.Spec
   C11.Proofs C11.Anterior C11.Sound C11.Complete C11.Minimal C11.Exact C11.Full C11.Bounded_3 C11.Bounded_4 C11.Refuted.
+From PG Require Base.Sx C11.Run.
 Import ListNotations.
+
+(* the extracted run_case (Cxx/Run.v) is the model's run_case on the model's modes; its extra modes expose helper functions *)
+Theorem extracted_run_case_is_model : forall s, Base.Sx.sx_nat (Base.Sx.sx_nth s 0) <> 3 -> Base.Sx.sx_nat (Base.Sx.sx_nth s 0) <> 4 -> C11.Run.run_case s = C11.Model.run_case s.
+Proof. exact C11.Run.run_case_model. Qed.
+Print Assumptions extracted_run_case_is_model.
 
 (* FULL soundness, all graphs of the domain of C01, all sizes: what the search returns lies between I and R and m-separates
    x and y in g (m-connecting paths of Graph/MSep.v).  Uses C01.Proofs.msep_correct and the anterior-restriction lemma. *)
